@@ -3,7 +3,7 @@ from registry_common import COMMON_ASSUME
 ENTRY = dict(
         title="No received frame stalls the pipeline; controller requests are always answered",
         design_ref="DESIGN.md section 6 / C09",
-        prop_modules=["C09", "C09Producer"],
+        prop_modules=["C09", "C09Producer", "C09Fanout"],
         technique="Lean 4 pool machine (read queue, unfinished counter, n symmetric consumers, per-frame class and 'handling raises' input bit) "
                   "with a conservation invariant proved for all frame sequences and all consumer schedules + correspondence with a real "
                   "AsyncProtocol on a fake transport under a virtual loop + Lean judge C09.spec on what the implementation showed",
@@ -33,6 +33,11 @@ ENTRY = dict(
             "nothing is lost between the reader and the consumers, however many frames pile up while the consumers are held up":
                 "theorem (conservation: every arrival is queued; C09Producer.enqueued_exactly_delivered) + correspondence (bursts of 35..2200 frames in one chunk during the first device creation; 40 / 150-frame streams into the read queue with no consumer)",
             "no consumer dies, including more raising frames than consumers": "theorem (no_consumer_dies, never_stalls)",
+            "no received frame stalls the pipeline: handling of every frame comes back (texts of every shape up to the wire limit)":
+                "correspondence (string-bearing payloads from shape families; every step under a CPU watchdog: a step that does not come back within 5 s CPU + 20 ms per frame is reported with the frame as failing input)",
+            "sub-device delivery: block i of a message with M slots is dispatched exactly once, on the object of index i; at most one object per index; bindings never change":
+                "theorem (C09Fanout.block_delivered_once, absent_not_delivered, nothing_else_delivered, one_object_per_index, binding_stable, holds: for every message sequence) "
+                "+ correspondence (sensor-data / mixer- / thermostat-parameter messages through a real AsyncProtocol; Fanout.spec judged on the observation; deliveries also counted at the sub-devices' event subscribers)",
             "the model distinguishes contained from uncontained consumers": "theorem (uncontained_counterexample)",
             "which payloads make handling raise": "correspondence (input bit from the implementation's decoder; C05)",
             "frame codes 64/48/192/176": "table (codes, generated frame table)",
@@ -60,7 +65,9 @@ ENTRY = dict(
             "frames for ecoSTER (81) / ECONET (86) / ALL (0)": "driven + compared",
             "shutdown()": "driven (after every case; must complete)",
             "on_connection_lost / loss of the connection": "producer stage: driven + compared (loss announced once); pool stage: one unjudged scenario (loss with a backlog, see notes)",
-            "subscribe on device events (delivery)": "observed through the dispatch tasks the consumers create (task factory), not through subscriptions",
+            "subscribe on device events (delivery)": "observed through the dispatch tasks the consumers create (task factory); byte-identical consecutive frames explicit; sub-devices: also through subscriptions on the Mixer / Thermostat objects",
+            "ecoMAX -> Mixer / Thermostat (mixer_sensors, mixer_parameters, thermostat_sensors, thermostat_parameters; registries data['mixers'] / data['thermostats'])": "driven + compared (fan-out machine, Fanout.spec)",
+            "Device.handle_frame called directly (no protocol)": "not driven here: C05 (c05_device) drives it; the protocol route ends in the same call",
             "DummyProtocol": "not applicable (no consumers, no automatic replies)",
         },
         timeout={"quick": 300, "thorough": 1800},
